@@ -145,11 +145,6 @@ def check(doc, b, p, value, do_json):
     return True
 
 
-def is_f13(ptype, value):
-    """known finding F13: Int.coerce_output returns Decimal/Fraction objects unchanged"""
-    return ptype == "Int" and isinstance(value, (Decimal, Fraction)) and value == int(value)
-
-
 SH = [{"doc": d, "bits": b} for d in DOCS for b in (0, 7)]
 NCH = 5
 SH_CAT = [{"doc": d, "bits": b, "chunk": c} for d in DOCS for b in (0, 7) for c in range(NCH)]
@@ -159,7 +154,7 @@ CHUNK = (len(CATALOGUE) + NCH - 1) // NCH
 @obligation(tier="quick", timeout=240, shards=SH_CAT,
             samples=[{"k": 2, "idx": 0}, {"k": 5, "idx": 13}, {"k": 0, "idx": 28}],
             selectors=["k: field instance receiving the value", "idx: catalogue entry (55 adversarial values)", "shard: document, nullability layout"],
-            bounds="catalogue x every field instance", findings=["F13"],
+            bounds="catalogue x every field instance", 
             note="adversarial catalogue value at every position: no raise, conforms, nulls explained, json.dumps succeeds")
 def c03_catalogue(k: int, idx: int) -> bool:
     """
@@ -173,8 +168,6 @@ def c03_catalogue(k: int, idx: int) -> bool:
     with NoTracing():
         value = CATALOGUE[idx]()
     if ptypes[k] == "My" and idx in NOT_JSON:
-        return True
-    if finding_open("F13") and is_f13(ptypes[k], value):
         return True
     return verdict(check(doc, b, pts[k], value, True))
 
